@@ -149,6 +149,12 @@ def r2_postdiagnosis(report, repo):
   atoms = ['is_error', 'none', 'terminal', 'is_pass', 'fail_diag']
 
   def classify(expr, steps):
+    # locals holding a snapshot of the outcome / result taken on this path are
+    # read through (`o = self.phase_record.outcome; if o == ERROR`)
+    path = cfgm.Path(steps, None)
+
+    def dotted(e):  # pylint: disable=redefined-outer-name
+      return cfgm.path_dotted(path, e) or core.dotted(e)
     if isinstance(expr, ast.Compare) and len(expr.ops) == 1:
       l, r = expr.left, expr.comparators[0]
       op = expr.ops[0]
@@ -452,10 +458,13 @@ def r4_run_if(report, repo, rule='C05-R4'):
       return 'run-row: running_phase_context entered %d times' % len(ctx)
     started = p.calls(attr='start')
     if started:
-      res = [n for n, _ in p.steps if n.kind == 'stmt' and isinstance(
-          n.ast, ast.Assign) and (dotted(n.ast.targets[0]) or '').endswith(
-              '.result') and isinstance(n.ast.value, ast.Call) and
-             last_attr(n.ast.value) == 'join_or_die']
+      res = []
+      for i, (n, _) in enumerate(p.steps):
+        if n.kind == 'stmt' and isinstance(n.ast, ast.Assign) and (
+            dotted(n.ast.targets[0]) or '').endswith('.result'):
+          val = cfgm.path_resolve(p, n.ast.value, before_index=i)
+          if isinstance(val, ast.Call) and last_attr(val) == 'join_or_die':
+            res.append(n)
       if len(res) != 1:
         return ('run-row: the result of the started phase thread '
                 '(join_or_die) is not stored in the phase state exactly once')
@@ -728,7 +737,7 @@ def r6b_diagnoses_reach_record(report, repo):
   def spec(v, p):
     if p.end != 'exit':
       return 'raises'
-    apps = [dotted(c.func.value) for c in p.calls(attr='append')]
+    apps = [cfgm.path_dotted(p, c.func.value) for c in p.calls(attr='append')]
     want = ['self.phase_record.failure_diagnosis_results'] if v['failure'] \
         else ['self.phase_record.diagnosis_results']
     return None if apps == want else \
